@@ -287,6 +287,12 @@ func c10Check(c C10Case, cx *h.Ctx) *h.Failure {
 		reps = 32
 	}
 	var transcript []string
+	type heldResult struct {
+		call int
+		res  apienum.Result
+		repr string
+	}
+	var held []heldResult
 	nontrivial := false
 	for i, call := range p.calls {
 		var first string
@@ -302,6 +308,10 @@ func c10Check(c C10Case, cx *h.Ctx) *h.Failure {
 			} else if s != first {
 				return h.Failf("deterministic/in-process:"+p.names[i], "%s(%s) returned different results on repetition %d:\n%s\nvs\n%s%s", p.names[i], res.ArgsRepr, r, clip(first, 400), clip(s, 400), desc())
 			}
+			if r == 1 {
+				held = append(held, heldResult{i, res, s}) // kept alive, unscribbled, and read again at the end
+				continue
+			}
 			scribble(res)
 			if r == 0 {
 				if f := purity(p.names[i]); f != nil {
@@ -316,6 +326,13 @@ func c10Check(c C10Case, cx *h.Ctx) *h.Failure {
 		transcript = append(transcript, p.names[i]+" => "+first)
 		if strings.HasPrefix(p.names[i], "func ") && c.Steps[i].CallIdx <= 6 {
 			nontrivial = true
+		}
+	}
+	// results are values: what a call returned still reads the same after all the later calls (no result lives in
+	// storage that a later call reuses)
+	for _, hr := range held {
+		if now := apienum.ReprResults(hr.res); now != hr.repr {
+			return h.Failf("pure/result-overwritten", "the result of %s changed while later calls ran:\nreturned %s\nnow      %s%s", p.names[hr.call], clip(hr.repr, 400), clip(now, 400), desc())
 		}
 	}
 	// constructors must not retain the slices handed to them; Sequence methods must not write to the float slice
